@@ -378,7 +378,10 @@ func (m *offsetMachine) dump(full bool) string {
 	return m.co.VerifDumpState()
 }
 
-func offsetModel(maxAdds int) *c12Model {
+func offsetModel(maxAdds int) *c12Model { return offsetModelArc(maxAdds, 0.25) }
+
+// offsetModelArc: arc 0 is the object's default arc tolerance (derived from the delta of each execution)
+func offsetModelArc(maxAdds int, arc float64) *c12Model {
 	var ops []string
 	var isAdd []bool
 	for _, a := range c12OffAdds {
@@ -396,9 +399,13 @@ func offsetModel(maxAdds int) *c12Model {
 	for _, a := range c12OffAdds {
 		edges = append(edges, a.ps)
 	}
-	return &c12Model{name: "ClipperOffset", ops: ops, isAdd: isAdd, maxAdds: maxAdds,
+	name := "ClipperOffset"
+	if arc == 0 {
+		name = "ClipperOffset(default arc tolerance)"
+	}
+	return &c12Model{name: name, ops: ops, isAdd: isAdd, maxAdds: maxAdds,
 		inputs: append([]Paths{c12Junk}, edges...), edges: edges,
-		fresh: func() c12Machine { return &offsetMachine{co: clipper.NewClipperOffset(2, 0.25, false, false)} },
+		fresh: func() c12Machine { return &offsetMachine{co: clipper.NewClipperOffset(2, arc, false, false)} },
 		refOp: func(op int) int { n := len(c12OffAdds); return n + ((op-n)/3)*3 },
 	}
 }
@@ -609,6 +616,7 @@ func c12Models(tier string) []struct {
 		{engineModel(true, false, adds), min(depth, 5), tier == "thorough"},
 		{offsetModel(adds), depth + 1, true},
 		{rectModel(), 4, false},
+		{offsetModelArc(2, 0), depth, true},
 	}
 }
 
@@ -905,7 +913,7 @@ func c12Replay(rp drv.Replay) int {
 		return 2
 	}
 	var md *c12Model
-	for _, cand := range []*c12Model{engineModel(false, true, 4), engineModel(false, false, 3), engineModel(true, false, 4), offsetModel(4), rectModel()} {
+	for _, cand := range []*c12Model{engineModel(false, true, 4), engineModel(false, false, 3), engineModel(true, false, 4), offsetModel(4), rectModel(), offsetModelArc(4, 0)} {
 		if cand.name == raw.Model && len(raw.History) > 0 && raw.History[len(raw.History)-1] < len(cand.ops) {
 			md = cand
 			if strings.Contains(rp.Detail, cand.ops[raw.History[len(raw.History)-1]]) {
